@@ -104,17 +104,19 @@ def canon(e: ast.AST, leaf: Optional[LeafFn] = None, transparent=("float", "Frac
     `%` are opaque atoms applied to the canonical text of their arguments."""
     if leaf is not None:
         s = leaf(e)
+        if isinstance(s, RF):
+            return s
         if s is not None:
             return RF(_sym(s))
     if isinstance(e, ast.Constant) and isinstance(e.value, (int, float)) and not isinstance(e.value, bool):
         return RF(_const(e.value))
     if isinstance(e, ast.UnaryOp) and isinstance(e.op, ast.USub):
-        return -canon(e.operand, leaf)
+        return -canon(e.operand, leaf, transparent)
     if isinstance(e, ast.UnaryOp) and isinstance(e.op, ast.UAdd):
-        return canon(e.operand, leaf)
+        return canon(e.operand, leaf, transparent)
     if isinstance(e, ast.BinOp):
         if isinstance(e.op, (ast.Add, ast.Sub, ast.Mult, ast.Div)):
-            a, b = canon(e.left, leaf), canon(e.right, leaf)
+            a, b = canon(e.left, leaf, transparent), canon(e.right, leaf, transparent)
             if isinstance(e.op, ast.Add):
                 return a + b
             if isinstance(e.op, ast.Sub):
@@ -124,7 +126,7 @@ def canon(e: ast.AST, leaf: Optional[LeafFn] = None, transparent=("float", "Frac
             return a / b
         if isinstance(e.op, ast.Pow) and isinstance(e.right, ast.Constant) and isinstance(e.right.value, int) \
                 and 0 <= e.right.value <= 4:
-            a = canon(e.left, leaf)
+            a = canon(e.left, leaf, transparent)
             out = RF(_const(1))
             for _ in range(e.right.value):
                 out = out * a
@@ -134,9 +136,9 @@ def canon(e: ast.AST, leaf: Optional[LeafFn] = None, transparent=("float", "Frac
     if isinstance(e, ast.Call):
         fn = e.func.id if isinstance(e.func, ast.Name) else (e.func.attr if isinstance(e.func, ast.Attribute) else None)
         if fn == "Fraction" and len(e.args) == 2 and not e.keywords:
-            return canon(e.args[0], leaf) / canon(e.args[1], leaf)
-        if fn in ("Fraction", "float") and len(e.args) == 1 and not e.keywords:
-            return canon(e.args[0], leaf)
+            return canon(e.args[0], leaf, transparent) / canon(e.args[1], leaf, transparent)
+        if fn in ("Fraction", "float") + tuple(t for t in transparent if t != "Fraction1") and len(e.args) == 1 and not e.keywords:
+            return canon(e.args[0], leaf, transparent)
         if fn is not None and not e.keywords:
             return RF(_sym(f"{fn}({','.join(text(a, leaf) for a in e.args)})"))
     if isinstance(e, ast.Name):
